@@ -36,6 +36,7 @@ COMMON_ASSUMPTIONS = ["A1", "A6", "A7"]
 
 _TB = ["z3 SMT solver (cvc5 for string queries z3 leaves open)", "pyvc VC generator (/verif/pyvc)", "CPython ast module"]
 from .bounded import query_enum_check, roundtrip_check  # noqa: E402
+from .census import census_check  # noqa: E402
 
 _TBB = ["CPython executing the real functions", "in-memory lmdb/msgpack stand-ins (/verif/stubs)", "sqlite3", "the NIP-01 oracle in /verif/bounded/query_enum.py"]
 PROPERTIES = {
@@ -47,7 +48,7 @@ PROPERTIES = {
     "C20": {"level": "proof", "trusted_base": _TB, "assumptions": ["TCP", "A4", "EV"]},
     "C01": {"level": "proof", "trusted_base": _TB, "assumptions": ["REPL", "REPR", "INDUCT-ATOMS", "SQL", "ENUM", "LMDBSTUB"], "extra_checks": [query_enum_check("C01")]},
     "C04": {"level": "proof", "trusted_base": _TB, "assumptions": ["EV", "ENC", "JSON", "SQL", "RTRIP"], "extra_checks": [roundtrip_check("C04")]},
-    "C03": {"level": "proof", "trusted_base": _TB, "assumptions": ["EV", "SQL", "JSON"]},
+    "C03": {"level": "proof", "trusted_base": _TB, "assumptions": ["EV", "SQL", "JSON"], "extra_checks": [census_check("C03")]},
     "C05": {"level": "proof", "trusted_base": _TB, "assumptions": ["EV", "A4", "ENUM"], "extra_checks": [query_enum_check("C05")]},
     "C06": {"level": "proof", "trusted_base": _TB, "assumptions": ["EV", "SQL", "WS", "JSON", "A4"]},
     "C07": {"level": "proof", "trusted_base": _TB, "assumptions": ["EV", "SQL"]},
@@ -56,11 +57,13 @@ PROPERTIES = {
     "C13": {"level": "proof", "trusted_base": _TB, "assumptions": ["WS", "JSON", "A4"]},
     "C19": {"level": "proof", "trusted_base": _TB, "assumptions": ["WS", "JSON", "A4"]},
     "C15": {"level": "proof", "trusted_base": ["z3 SMT solver", "pyvc VC generator (/verif/pyvc)", "CPython ast module"], "assumptions": ["A3", "EV"]},
-    "C14": {"level": "proof", "trusted_base": ["z3 SMT solver", "pyvc VC generator (/verif/pyvc)", "CPython ast module"], "assumptions": ["EV"]},
+    "C14": {"level": "proof", "trusted_base": ["z3 SMT solver", "pyvc VC generator (/verif/pyvc)", "CPython ast module"], "assumptions": ["EV"],
+            "extra_checks": [census_check("C14")]},
     "C16": {
         "level": "proof",
         "trusted_base": ["z3 SMT solver", "pyvc VC generator (/verif/pyvc)", "CPython ast module"],
         "assumptions": ["A3", "EV"],
+        "extra_checks": [census_check("C16")],
     },
     "C18": {
         "level": "proof",
@@ -124,6 +127,14 @@ def try_replay(prop, unit, name, insts):
 def replay(prop, path):
     rp = json.load(open(os.path.join(ROOT, path) if not os.path.isabs(path) else path))
     print(json.dumps({k: rp[k] for k in ("property", "obligation", "unit", "function")}, indent=1))
+    if rp["unit"] == "bounded:storage-entry-census":
+        from .census import scan, ALLOWED
+        sites, _n = scan(os.environ.get("PYVC_REPO", "/repo"))
+        bad = [x for x in sites if x[3].split(" ")[0] not in ALLOWED[x[0]] or "(raw INSERT)" in x[3]]
+        print(json.dumps(bad, indent=1))
+        if bad:
+            print("VIOLATION property=%s replay=%s" % (prop, path))
+        return 1 if bad else 0
     if rp["unit"] == "bounded:store-and-serve-roundtrip":
         env = dict(os.environ)
         env["PYTHONPATH"] = ROOT
